@@ -141,6 +141,11 @@ def atom(draw, sizes, names, exts, mtimes, uids):
                 lit = "?" + base[1:]
         elif fam == "strict":
             op = "!==" if neg else "==="
+            # a wildcard in a strict comparison is just a character: strict and plain equality differ here
+            if tweak == "prefix" and len(base) > 1:
+                lit = base[:max(1, len(base) // 2)] + "*"
+            elif tweak == "one" and base:
+                lit = "?" + base[1:]
         elif fam == "like":
             op = draw(st.sampled_from(["notlike", "not like"])) if neg else "like"
             op = "not like" if op == "notlike" else op
